@@ -213,3 +213,45 @@ def parafac2_slice(S, weights, A, B, C, P_i, i):
         subs.append("r")
         args.append(weights)
     return S.einsum(",".join(subs) + "->jk", *args)
+
+
+# ------------------------------------------------------------------------------------------------ C07 (block problems)
+def cp_gram(S, weights, factors, mode, ridge=None):
+    """N[r,s] = w_r w_s ( prod_{q != mode} sum_i U_q[i,r] conj(U_q[i,s])  + ridge * delta_rs )
+    = K^T conj(K) for K = khatri_rao(factors except mode) * diag(w): the Gram matrix of the block least-squares problem."""
+    subs, args = [], []
+    pos = 0
+    for q, U in enumerate(factors):
+        if q == mode:
+            continue
+        i = _L[pos]
+        pos += 1
+        subs += [i + "R", i + "S"]
+        args += [U, S.conj(U)]
+    if not subs:
+        R_ = S.shape(factors[mode])[1]
+        g = S.ones([R_, R_])
+    else:
+        g = S.einsum(",".join(subs) + "->RS", *args)
+    if ridge is not None:
+        g = g + S.eye(S.shape(g)[0]) * ridge
+    if weights is not None:
+        g = S.einsum("RS,R,S->RS", g, weights, weights)
+    return g
+
+
+def tr_design(S, cores, dim):
+    """Design matrix of the tensor-ring block problem for core `dim`:
+    D[(i_n, n != dim ascending), (a, b)] = (G_{dim+1} ... G_{dim-1})[b, i_{dim+1}.., a]   with a = r_dim, b = r_{dim+1}"""
+    N = len(cores)
+    ix = letters(N)
+    rk = letters(N, N)  # rk[k] = left rank letter of core k; right rank of core k is rk[(k+1) % N]
+    subs, args = [], []
+    for j in range(1, N):
+        k = (dim + j) % N
+        subs.append(rk[k] + ix[k] + rk[(k + 1) % N])
+        args.append(cores[k])
+    others = [ix[n] for n in range(N) if n != dim]
+    out = "".join(others) + rk[dim] + rk[(dim + 1) % N]
+    t = S.einsum(",".join(subs) + "->" + out, *args)
+    return S.group(t, [list(range(N - 1)), [N - 1, N]])
